@@ -155,7 +155,7 @@ impl World {
     }
 
     pub fn simchain(&self) -> SimChain {
-        SimChain { state: self.chain.clone(), log: self.log.clone(), snap_path: None, armed: std::sync::atomic::AtomicBool::new(false), on_boundary: None }
+        SimChain { state: self.chain.clone(), log: self.log.clone(), snap_path: None, armed: std::sync::atomic::AtomicBool::new(false), on_boundary: None, down: self.node.down.clone() }
     }
 
     /// Builds a new appointment version for `chan` whose blob has (about) `target_len` bytes.
@@ -248,7 +248,7 @@ impl World {
         }
     }
 
-    pub fn resolve(&mut self, r: &TxRef, rng_salt: u64) -> Transaction {
+    pub fn resolve(&self, r: &TxRef, rng_salt: u64) -> Transaction {
         match r {
             TxRef::Dispute(c) => self.chans[*c].dispute.clone(),
             TxRef::Penalty(v) => self.versions[*v].penalty.clone().expect("penalty of a valid version"),
@@ -272,7 +272,7 @@ impl World {
     }
 
     /// Mines the blocks on the node's chain and updates the mempool.
-    pub fn mine(&mut self, blocks: &[Vec<TxRef>], salt: u64) {
+    pub fn mine(&self, blocks: &[Vec<TxRef>], salt: u64) {
         for b in blocks {
             let txs: Vec<Transaction> = b.iter().map(|r| self.resolve(r, salt)).collect();
             let ids: Vec<Txid> = txs.iter().map(|t| t.compute_txid()).collect();
@@ -281,7 +281,7 @@ impl World {
         }
     }
 
-    pub fn reorg(&mut self, depth: usize, blocks: &[Vec<TxRef>], salt: u64) {
+    pub fn reorg(&self, depth: usize, blocks: &[Vec<TxRef>], salt: u64) {
         let resolved: Vec<Vec<Transaction>> = blocks.iter().map(|b| b.iter().map(|r| self.resolve(r, salt)).collect()).collect();
         let mut orphaned = Vec::new();
         {
@@ -297,7 +297,7 @@ impl World {
         self.node.on_reorg(orphaned);
     }
 
-    pub fn set_script(&mut self, txid: Txid, script: Option<(i32, bool)>) {
+    pub fn set_script(&self, txid: Txid, script: Option<(i32, bool)>) {
         let mut st = lock(&self.node.state);
         match script {
             None => {
